@@ -3,7 +3,8 @@
 # suite run), STREAMS at a time; the checks named in each meta.json are the ones run. Log: /tmp/reseedall.<k>.log
 N=${1:-3}
 cd /verif
-ls -d seeded/*/ | sed 's#seeded/##; s#/##' > /tmp/reseedall.names
+# names listed in the file given as $2 (one per line) are skipped (an interrupted run is continued that way)
+ls -d seeded/*/ | sed 's#seeded/##; s#/##' | grep -v -x -F -f "${2:-/dev/null}" > /tmp/reseedall.names
 k=0
 while [ $k -lt $N ]; do
   ( awk -v n=$N -v k=$k 'NR % n == k' /tmp/reseedall.names | while read n; do
@@ -13,7 +14,7 @@ import json,sys
 m=json.load(open('/verif/seeded/$n/meta.json'))
 print(','.join(sorted({k.split('@')[0] for k in m.get('checks',{})} | {'$id'})))")
       /venv/bin/python tools/seedeval.py $id seeded/$n/patch.diff seeded/$n/demo.py $n --no-tests --seeds 1 --checks $cks 2>&1 | grep -E "demo_ok|rc=" | cut -c1-200
-    done > /tmp/reseedall.$k.log 2>&1 ) &
+    done >> /tmp/reseedall.$k.log 2>&1 ) &
   k=$((k+1))
 done
 wait
